@@ -290,6 +290,11 @@ Proof.
   unfold read_points. rewrite <- !app_assoc.
   replace (len pts) with (len F) by (unfold len; lia).
   rewrite Hrd. cbn [bind].
+  assert (HDl : firstn (Z.to_nat (len F)) D = D).
+  { apply firstn_all2.
+    assert (HL : length F = length D) by (clear -HD; induction HD; cbn [length]; congruence).
+    unfold len. lia. }
+  cbv zeta. rewrite HDl.
   rewrite (read_xs_enc pts chs ds D _ Hc (eq_sym Hdl) HD). cbn [bind].
   subst ds. rewrite (read_ys_enc pts chs D rest 0 0 Hc Hok HD). cbn [bind].
   eexists. split; [reflexivity|].
